@@ -9,7 +9,7 @@ CONSTANTS
   InitBases <- MCInitBases
   Crafts <- CraftsQuick
   Perms = {"anyone"}
-  Thirds = {"same", "perm", "addr"}
+  Thirds = {"same", "perm", "addr", "owner"}
 VIEW MCView
 INVARIANTS ClosureRaw
 CHECK_DEADLOCK FALSE
